@@ -340,7 +340,24 @@ __visible_default int backtrace(void **buffer, int sz)
 		pr_dbg("%s is called from [%d]\n", __func__, mtdp->idx);
 	}
 
-	ret = real_backtrace(buffer, sz);
+	/*
+	 * glibc's backtrace() leaves out its own frame, so the first entry
+	 * would be this wrapper.  Ask for one more and drop it: the program
+	 * must see the frames it sees without libmcount.
+	 */
+	if (sz > 0) {
+		void **tmp = xmalloc((sz + 1) * sizeof(*tmp));
+
+		ret = real_backtrace(tmp, sz + 1);
+		if (ret > 0) {
+			ret--;
+			memcpy(buffer, tmp + 1, ret * sizeof(*tmp));
+		}
+		free(tmp);
+	}
+	else {
+		ret = real_backtrace(buffer, sz);
+	}
 
 	if (!check_thread_data(mtdp))
 		mcount_rstack_rehook(mtdp);
